@@ -1,5 +1,5 @@
 SPECIFICATION Spec
-CONSTANT Configs <- MCSmall
+CONSTANT Configs <- MCSmallAll
 INVARIANT TypeOK
 INVARIANT OkIsIdentity
 INVARIANT NeverSilent
